@@ -73,9 +73,9 @@ def judge(run, pid, results, kind, also=()):
     return totals
 
 
-def make_scenarios(h, small, mate, rep, game, label):
+def make_scenarios(h, small, mate, rep, game, label, fam=0):
     path = os.path.join(vcommon.BUILD, "scen-%s-%d.json" % (label, os.getpid()))
-    vcommon.run_harness(h, ["scen", "--out", path, "--seed", vcommon.seed(), "--small", small, "--mate", mate, "--rep", rep, "--game", game])
+    vcommon.run_harness(h, ["scen", "--out", path, "--seed", vcommon.seed(), "--small", small, "--mate", mate, "--rep", rep, "--game", game, "--fam", fam])
     return path
 
 
@@ -217,8 +217,8 @@ def c11(tier, replay):
         return run.finish()
     h = vcommon.build_harness()
     q = tier == "quick"
-    scen = make_scenarios(h, 10 if q else 60, 30 if q else 250, 0, 0, "C11")
-    totals, summ = run_expiry(run, "C11", h, scen, "small,mate", 4 if q else 5, 0, 600000, 2 if q else 3, "mate")
+    scen = make_scenarios(h, 8 if q else 60, 30 if q else 250, 0, 0, "C11", 14 if q else 120)
+    totals, summ = run_expiry(run, "C11", h, scen, "small,mate,fam", 4 if q else 5, 0, 600000, 2 if q else 3, "mate")
     if totals.get("mates", 0) == 0:
         raise ToolError("coverage hole: no mate scores in this run")
     run.cov["mate_lines_judged"] = totals.get("mates", 0)
@@ -239,8 +239,8 @@ def c12(tier, replay):
         return run.finish()
     h = vcommon.build_harness()
     q = tier == "quick"
-    scen = make_scenarios(h, 16 if q else 150, 6 if q else 40, 8 if q else 60, 8 if q else 60, "C12")
-    totals, summ = run_trees(run, "C12", h, scen, "small,mate,rep,game", 3, 60000, 400000, "trees")
+    scen = make_scenarios(h, 12 if q else 150, 8 if q else 40, 8 if q else 60, 6 if q else 60, "C12", 24 if q else 200)
+    totals, summ = run_trees(run, "C12", h, scen, "small,mate,rep,game,fam", 3, 60000, 400000, "trees")
     if totals.get("stree", 0) < 5:
         raise ToolError("coverage hole: fewer than 5 trees recorded")
     os.remove(scen)
